@@ -40,9 +40,9 @@ struct Case {
 const std::vector<std::string> &hostileWords();
 std::string fmt3(double x);
 
-Case genCase(Choices &c, int queryPct, bool forJson = false) {
+Case genCase(Choices &c, int queryPct, bool forJson = false, unsigned compallsenPct = 30) {
   Case k;
-  k.decIdx = c.coin(30) ? 1 : 0;
+  k.decIdx = c.coin(compallsenPct) ? 1 : 0;
   if (forJson) k.decIdx = (int)c.weighted({2, 1, 5, 2, 2});
   k.sc = genSearchCfg(c);
   if (forJson && k.decIdx >= 2) k.gram = genGrammar(c, 0, 3, 4, &hostileWords());
@@ -68,8 +68,9 @@ Case genCase(Choices &c, int queryPct, bool forJson = false) {
   // keep those cases short (bounded by size, not by a time limit)
   if (k.sc.beam == 0 && k.gram.text.size() > 220 && N > 12000) N = 12000;
   k.audio = audio::recipe(c, (size_t)N, k.audioDesc, true, 12);
-  k.fullUtt = c.coin(8);
-  if (k.fullUtt) k.chunks = {{(size_t)N, false, false}};
+  k.fullUtt = c.coin(12);
+  // a full-utterance block may be followed by a query before end_utt (end_utt then searches nothing new)
+  if (k.fullUtt) k.chunks = {{(size_t)N, false, c.coin(60)}};
   else k.chunks = genChunks(c, (size_t)N, true, queryPct);
   return k;
 }
@@ -912,8 +913,13 @@ Verdict oracleC04(decoder_t *d, const Obs &o, bool final, Ctx &ctx) {
     fsg_search_t *fs = (fsg_search_t *)d->search;
     config_t *cfg = decoder_config(d);
     bool open = config_float(cfg, "beam") == 0 && config_float(cfg, "pbeam") == 0 && config_float(cfg, "wbeam") == 0;
-    for (size_t i = 0; i < ws.size(); ++i) {
+    // not the last word: nothing follows it in the search, which therefore takes the best of all right-context
+    // models for its last phone, while the alignment uses the silence context (different models, no relation)
+    for (size_t i = 0; i + 1 < ws.size(); ++i) {
       int32 wid = dict_wordid(d->dict, ws[i].name.c_str());
+      // nor one-phone words: the search builds them from the word-final triphone table, the alignment from the
+      // single-phone-word table (different models again)
+      if (dict_pronlen(d->dict, wid) == 1) continue;
       long pen = (long)fs->wip + (long)fs->pip * dict_pronlen(d->dict, wid);
       long firstPass = (long)dictSegs[i].ascr - pen;
       PBT_CHECK(ws[i].score >= firstPass, "word-score-below-first-pass", when << ": word " << i << " '" << ws[i].name << "' has alignment score " << ws[i].score << " but the search gave it " << dictSegs[i].ascr << " including penalties " << pen << " = " << firstPass << " over the same frames; " << o.str() << " vs " << dump);
@@ -939,7 +945,8 @@ Verdict oracleC04(decoder_t *d, const Obs &o, bool final, Ctx &ctx) {
 enum Which { W_C01 = 0, W_C03 = 1, W_C11 = 2, W_C12 = 3, W_C14 = 4, W_C04 = 5 };
 
 Verdict runCase(Choices &c, Ctx &ctx, Which which) {
-  Case k = genCase(c, which == W_C01 ? 25 : which == W_C03 ? 15 : 20, which == W_C14);
+  // C04's cross-pass clause is judged on the compallsen decoder only
+  Case k = genCase(c, which == W_C01 ? 25 : which == W_C03 ? 15 : 20, which == W_C14, which == W_C04 ? 55 : 30);
   c_probeKnown = c.coin(4);
   ctx.describe(caseDesc(k));
   decoder_t *d = gDec[k.decIdx];
@@ -974,7 +981,7 @@ Verdict runCase(Choices &c, Ctx &ctx, Which which) {
     }
     returned += r;
     PBT_CHECK(returned == fs->frame, "returned-vs-search-frame", "processing calls returned " << returned << " frames in total, the search stepped " << fs->frame);
-    if (ch.queryAfter && !k.fullUtt) {
+    if (ch.queryAfter) {
       Obs o = observe(d);
       ++partials;
       partialHyp = partialHyp || o.hasHyp;
